@@ -19,10 +19,14 @@ RULE = ("(i) direct drive of a real REPEX_state.inf_retis and of the cached "
         "cancellation), tolerance 1e-9, plus double stochasticity and zero "
         "pattern. (ii) the same postcondition rides on scheduler-rig runs, so "
         "the matrices are literally those the sampler reaches, including the "
-        "cache (stale-P detection). Blocks > 12 with unequal weights use the "
-        "program's Monte Carlo estimator and are checked statistically and "
-        "counted separately. Non-trivial = idle block >= 2; distinct = "
-        "distinct (zero pattern, lock set, weights).")
+        "cache (stale-P detection). An independent block decomposition "
+        "(Hall) gives the irreducible blocks: only for a block > 12 with "
+        "unequal weights does the program use its Monte Carlo estimator - "
+        "that deviates from the permanent ratios and is known finding "
+        "C02-F26 (re-observed by a direct probe, three exact entries of one "
+        "13-14 block); every other matrix, also with 13-18 idle ensembles in "
+        "small blocks, must be exact to 1e-9. Non-trivial = idle block >= 2; "
+        "distinct = distinct (zero pattern, lock set, weights).")
 ASSUMPTIONS = [
     "reachable family: one [0-] row (1,0,..,0), plus rows with weight >0 "
     "exactly up to the path's reach, ghost slot always locked",
